@@ -10,7 +10,7 @@ use crate::Ctx;
 use refimpl::{Mode, MODES};
 use serde_json::json;
 
-const RULE: &str = "fault enumeration: entry points {try_keygen_with_rng (module fn), KG::try_keygen_with_rng, try_sign_with_rng, try_hash_sign_with_rng x3 PH, dudect_keygen_sign_with_rng (two requests)} x 3 sets x failing request index {0,1,2} x fault kind {error before write, error after 1/16/31 real bytes with a poisoned tail, error after a full write} x reported error code {rand_core custom, internal, OS errnos 1, 4 (EINTR), 5, 11 (EAGAIN), 35, 38, 2^31-1, 2^32-1}: when the fault fires the call must return Err without unwinding; when it does not fire the call must return Ok and a strict RNG (whose infallible methods panic) must have logged only try_fill_bytes(32). Influence: for each of the 256 bit positions of each draw, flipping it must change the public-key bytes, the private-key bytes and the signature (each mode). Exhaustion: ML-DSA-44 signing calls with accepted extreme-t0 keys (48 / 384) make exactly one RNG request whether they succeed or run out of loop iterations, and the exhausted ones return Err after one request also when a second request would fail. OS RNG: repeated try_keygen/try_sign/try_hash_sign calls on identical inputs give pairwise distinct outputs that verify. Non-trivial = distinct (entry point, set, fault index, fault kind) cells in which the fault actually fired, plus distinct influence probes.";
+const RULE: &str = "fault enumeration: entry points {try_keygen_with_rng (module fn), KG::try_keygen_with_rng, try_sign_with_rng, try_hash_sign_with_rng x3 PH, dudect_keygen_sign_with_rng (two requests)} x 3 sets x failing request index {0,1,2} x fault kind {error before write, error after 1/16/31 real bytes with a poisoned tail, error after a full write} x reported error {rand_core custom code, internal code, OS errnos 1, 4 (EINTR), 5, 11 (EAGAIN), 35, 38, 2^31-1, 2^32-1; on the harness flavour built with rand_core/std also a boxed std error without any code}: when the fault fires the call must return Err without unwinding; when it does not fire the call must return Ok and a strict RNG (whose infallible methods panic) must have logged only try_fill_bytes(32). Influence: for each of the 256 bit positions of each draw, flipping it must change the public-key bytes, the private-key bytes and the signature (each mode). Exhaustion: ML-DSA-44 signing calls with accepted extreme-t0 keys (48 / 384) make exactly one RNG request whether they succeed or run out of loop iterations, and the exhausted ones return Err after one request also when a second request would fail. OS RNG: repeated try_keygen/try_sign/try_hash_sign calls on identical inputs give pairwise distinct outputs that verify. Non-trivial = distinct (entry point, set, fault index, fault kind) cells in which the fault actually fired, plus distinct influence probes.";
 
 pub fn run(ctx: &Ctx) -> StageOut {
     let mut acc = Acc::new();
